@@ -1439,6 +1439,58 @@ fn fam_listidx(_func: Option<&str>, only: Option<u64>) {
 // C07 (mechanism `keyof`), bounded: keyof A, keyof (A & B), keyof (A | B) for object atoms A, B whose declared
 // keys are the non-empty subsets of {a, b, c} (string values), built as diagrams (two positive atoms in one
 // clause for the intersection). Oracle: the declared keys of A; their union for A & B; their intersection for A | B.
+// C07, bounded stand-in for mapping_indexed_access (object property access `T[K]`, not under contract): object atoms
+// with declared keys among {a: string, b: number}, optionally a string index signature, indexed by a listed key set
+// over {a, b, c}, by `string`, or by `string except ...`. Expected: the union of the types of the declared keys the
+// key set selects, and the signature's value type when the key set has a key that is not declared.
+fn fam_mapidx(_func: Option<&str>, only: Option<u64>) {
+    use beff_core::subtyping::bdd::IndexedPropertiesAtomic;
+    let mut rep = Rep::new("mapidx", "mapping_indexed_access", only);
+    let names = ["a", "b", "c"];
+    let decl_ty = |k: &str| if k == "a" { SubTypeTag::String } else { SubTypeTag::Number };
+    let key_subsets: Vec<Vec<&'static str>> = (1..8u8).map(|m| (0..3).filter(|i| (m >> i) & 1 == 1).map(|i| names[i]).collect()).collect();
+    #[derive(Clone, Debug)]
+    enum Key { Listed(Vec<&'static str>), All, Except(Vec<&'static str>) }
+    let mut keys: Vec<Key> = vec![Key::All];
+    for ks in &key_subsets { keys.push(Key::Listed(ks.clone())); keys.push(Key::Except(ks.clone())); }
+    for dm in 0..4u8 {
+        let declared: Vec<&'static str> = (0..2).filter(|i| (dm >> i) & 1 == 1).map(|i| names[i]).collect();
+        for sig in [None, Some(SubTypeTag::Boolean), Some(SubTypeTag::String)] {
+            for key in &keys {
+                if !rep.want() { continue; }
+                let mut ctx = SemTypeContext::new();
+                let mut vs = BTreeMap::new();
+                for k in &declared { vs.insert(k.to_string(), Rc::new(SemType::new_basic(decl_ty(k).code()))); }
+                let idx = sig.map(|t| IndexedPropertiesAtomic { key: Rc::new(SemTypeContext::string()), value: Rc::new(SemType::new_basic(t.code())) });
+                let t = Rc::new(ctx.mapping_definition(vs, idx));
+                let selects = |k: &str| match key { Key::All => true, Key::Listed(l) => l.contains(&k), Key::Except(l) => !l.contains(&k) };
+                let mut bits = 0u32;
+                for k in &declared { if selects(k) { bits |= decl_ty(k).code(); } }
+                // a selected key that is not declared: one of a, b, c, or (for `string` / `string except`) any other string
+                let undeclared_selected = match key { Key::Listed(l) => l.iter().any(|k| !declared.contains(k)), _ => true };
+                if undeclared_selected { if let Some(t) = sig { bits |= t.code(); } }
+                let expected = Rc::new(SemType::new_basic(bits));
+                let lits = |l: &Vec<&'static str>| { let mut v: Vec<StringLitOrFormat> = l.iter().map(|k| strc(k)).collect(); v.sort(); v };
+                let key_t = Rc::new(match key {
+                    Key::All => SemTypeContext::string(),
+                    Key::Listed(l) => SemType::new_complex(0, vec![Rc::new(ProperSubtype::String { allowed: true, values: lits(l) })]),
+                    Key::Except(l) => SemType::new_complex(0, vec![Rc::new(ProperSubtype::String { allowed: false, values: lits(l) })]),
+                });
+                let descr = format!("object with declared keys {:?} (a: string, b: number) and index signature [k: string]: {:?}, indexed by {:?}", declared, sig, key);
+                match ctx.indexed_access(t, key_t) {
+                    Ok(r) => match r.is_same_type(&expected, &mut ctx) {
+                        Ok(true) => {}
+                        Ok(false) => rep.fail(descr, format!("indexed access = {:?}", r), format!("{:?} (the types of the selected declared keys, and the signature's value type when an undeclared key is selected)", expected)),
+                        Err(e) => rep.fail(descr, format!("is_same_type Err({})", e), "true".into()),
+                    },
+                    Err(_) => {}   // refused: not an answer
+                }
+            }
+        }
+    }
+    rep.print();
+}
+
 fn fam_keyof(_func: Option<&str>, only: Option<u64>) {
     let mut rep = Rep::new("keyof", "keyof", only);
     let names = ["a", "b", "c"];
@@ -1793,6 +1845,7 @@ fn main() {
         "idxsig" => fam_idxsig(f, only),
         "listidx" => fam_listidx(f, only),
         "keyof" => fam_keyof(f, only),
+        "mapidx" => fam_mapidx(f, only),
         "refs" => fam_refs(f, only, false, false),
         "refspanic" => fam_refs(f, only, true, false),
         "refsshared" => fam_refs(f, only, false, true),
